@@ -830,6 +830,46 @@ def _shared_rule(mod, name, **kw):
     return run
 
 
+def r22_other_label_and_count(ctx, rule):
+    """The last detector labels every section that is still untyped as O<n> and reports it: the label (the base structure will
+    contain O<n>) and the append to the returned list (the counter Other/<n>.txt is fed from) stand under the same conditions, and
+    those conditions speak only of the section's label.  (Seed C03-ga appended only `if other_string.strip()`: the blank of
+    'hello world' enters the base structure A5O1A5 and is never written to Other/1.txt - the password is not reproduced; seed
+    C05-ga labelled only non-blank leftovers: a blank-only section stays untyped and base_structure_creation raises.)"""
+    q = 'lib_trainer/detection_rules/other_detection.py::other_detection'
+    fn = ctx.fn(q)
+    mod = ctx.repo.modules[q.partition('::')[0]]
+    ctx.stats['functions'].add(q)
+    ps = params(fn)
+    labels = [st for st in walk_local(fn) if isinstance(st, ast.Assign) and len(st.targets) == 1 and isinstance(st.targets[0], ast.Subscript)
+              and isinstance(st.targets[0].value, ast.Name) and st.targets[0].value.id in ps and isinstance(st.value, ast.Tuple)]
+    rets = [r.value.id for r in walk_local(fn) if isinstance(r, ast.Return) and isinstance(r.value, ast.Name)]
+    apps = [st for st in walk_local(fn) if isinstance(st, ast.Expr) and isinstance(st.value, ast.Call) and isinstance(st.value.func, ast.Attribute)
+            and st.value.func.attr == 'append' and isinstance(st.value.func.value, ast.Name) and st.value.func.value.id in rets]
+    if len(labels) != 1 or len(apps) != 1:
+        ctx.unk(rule, q, 'expected one labelling store and one append to the returned list (found %d, %d)' % (len(labels), len(apps)))
+        return
+    lc = [(U(t), p_) for t, p_ in path_conditions(mod, labels[0]) if not isinstance(mod.parents.get(id(t)), ast.While)]
+    ac = [(U(t), p_) for t, p_ in path_conditions(mod, apps[0]) if not isinstance(mod.parents.get(id(t)), ast.While)]
+    loop_tests = {U(w.test) for w in walk_local(fn) if isinstance(w, ast.While)}
+    lc = [c for c in lc if c[0] not in loop_tests]
+    ac = [c for c in ac if c[0] not in loop_tests]
+    facts = {'label_conditions': lc, 'append_conditions': ac}
+    if sorted(lc) != sorted(ac):
+        extra = [c for c in ac if c not in lc] + [c for c in lc if c not in ac]
+        ctx.bad(rule, q, 'a section is labelled O<n> and reported under different conditions: %s' % extra[:2],
+                'what is labelled must be counted and the other way round: the base structure and the terminal list are written from '
+                'the two', facts, apps[0], firm=True)
+        return
+    alien = [c for c in lc if not ('[1]' in c[0] and 'None' in c[0]) and 'label' not in c[0]]
+    if alien:
+        ctx.bad(rule, q, 'an untyped section is left untyped when: %s' % alien[:2], 'other_detection is the last detector: every section '
+                'that reaches it without a label gets one, whatever its text (blanks, NBSP) - an untyped section makes '
+                'base_structure_creation raise', facts, labels[0], firm=True)
+        return
+    ctx.ok(rule, q, 'label and append stand under the same condition (the section is untyped)', facts)
+
+
 def rules(tier):
     return [('C03.R1', r1_tag_chain), ('C03.R2', lambda c, r: r2_mask_producer(c, r, lower_only=False)), ('C03.R3', r3_mask_insertion),
             ('C03.R4', lambda c, r: c04.r3_mask_slices(c, r, strict_char_map=False)), ('C03.R5', c04.r2_structural_recursion), ('C03.R6', c04.r1_dispatch),
@@ -844,7 +884,9 @@ def rules(tier):
             # mutation sweep: what the detectors find reaches the counters, once per occurrence
             ('C03.R20', _shared_rule('c06', 'r21_unit_tallies')),
             # C03-eb: _find_prob memoised under (base_prob, indexes) - structures with the same probability share entries
-            ('C03.R21', _shared_rule('c01', 'r3b_prob_pure'))] + _loader_bundle() + _segmentation_bundle() + []
+            ('C03.R21', _shared_rule('c01', 'r3b_prob_pure')),
+            # C03-ga: the blank-only other section labelled but not counted
+            ('C03.R22', r22_other_label_and_count)] + _loader_bundle() + _segmentation_bundle() + []
 
 
 META = {
